@@ -97,6 +97,105 @@ partial def runLoop (h : IO.FS.Stream) (out : IO.FS.Stream) (cur : Option Case) 
       runLoop h out cur (idx + 1)
   | _ => runLoop h out cur idx
 
+/-! ### unit operations (matchers, pretty errors, header) -/
+
+def showRes {α} (render : α → String) : Res α → String
+  | .ok v s => s!"OK {s.off} {render v}"
+  | .err e => s!"ERR {e.pos} {Spec.render e.spec}"
+  | .panic m => s!"PANIC {m}"
+
+def bytesToChars (bs : List UInt8) : Option (List Char) :=
+  (String.fromUTF8? (ByteArray.mk bs.toArray)).map String.toList
+
+def unitOp (line : String) : String :=
+  match line.trimAscii.toString.splitOn " " with
+  | "m" :: name :: hexin :: off :: far :: args =>
+    match (if hexin == "-" then some [] else unhex hexin.toList), off.toNat? with
+    | some inp, some off =>
+      let st : St := { rest := inp.drop off, off := off, far := far.toNat?.map (fun p => { pos := p, spec := .other }) }
+      let chr := fun (a : String) => a.toNat?.map Char.ofNat
+      let lit := fun (a : String) => (if a == "-" then some [] else unhex a.toList) >>= bytesToChars
+      match name, args with
+      | "char", _ => showRes renderChar (parseChar st)
+      | "ws", _ => showRes (fun _ => "()") (parseWhitespace st)
+      | "eoi", _ => showRes (fun _ => "()") (parseEndOfInput st)
+      | "strlit", [a] => (match lit a with | some l => showRes (fun _ => renderStr l) (parseStringLiteral st l) | none => "BADARG")
+      | "strliti", [a] => (match lit a with | some l => showRes (fun _ => renderStr l) (parseStringLiteralInsensitive st l) | none => "BADARG")
+      | "chrlit", [a] => (match chr a with | some c => showRes renderChar (parseCharacterLiteral st c) | none => "BADARG")
+      | "chrliti", [a] => (match chr a with | some c => showRes renderChar (parseCharacterLiteralInsensitive st c) | none => "BADARG")
+      | "range", [a, b] => (match chr a, chr b with | some x, some y => showRes renderChar (parseCharacterRange st x y) | _, _ => "BADARG")
+      | _, _ => "BADMATCHER"
+    | _, _ => "BADINPUT"
+  | ["pretty", hextext, pos, file] =>
+    match (if hextext == "-" then some [] else unhex hextext.toList) >>= bytesToChars, pos.toNat? with
+    | some text, some pos =>
+      let f := if file == "-" then none else (unhex file.toList).map bytesToString
+      "P " ++ hexBytes (Pretty.render { pos := pos, spec := .expectedEoi } text f).toUTF8.toList
+    | _, _ => "BADINPUT"
+  | ["hdr", hextext] =>
+    match (if hextext == "-" then some [] else unhex hextext.toList) with
+    | some bs => "H " ++ bytesToString (Build.hex8 (Build.crc32 bs))
+    | none => "BADINPUT"
+  | _ => "BADOP"
+
+partial def unitLoop (h : IO.FS.Stream) (out : IO.FS.Stream) : IO Unit := do
+  let line ← h.getLine
+  if line.isEmpty then return ()
+  out.putStrLn (unitOp line)
+  unitLoop h out
+
+/-! ### build-script histories -/
+
+def fnv64 (bs : List UInt8) : UInt64 :=
+  bs.foldl (fun h b => (h ^^^ b.toUInt64) * 0x100000001b3) 0xcbf29ce484222325
+
+def hex16 (x : UInt64) : String :=
+  String.ofList ((List.range 16).map fun i => hexDigit ((x.toNat / 16 ^ (15 - i)) % 16))
+
+def fsMain (dir : String) : IO Unit := do
+  let consts ← IO.FS.lines (dir ++ "/consts.txt")
+  let k : Build.Consts := { version := (consts[0]!).toUTF8.toList, buildTime := (consts[1]!).toUTF8.toList }
+  let tableLines ← IO.FS.lines (dir ++ "/table.txt")
+  let mut table : List (List UInt8 × Option (List UInt8)) := []
+  for l in tableLines do
+    match l.splitOn " " with
+    | [hx, path] =>
+      let g := (if hx == "-" then some [] else unhex hx.toList).getD []
+      if path == "ERR" then table := (g, none) :: table
+      else
+        let code ← IO.FS.readBinFile path
+        table := (g, some code.toList) :: table
+    | _ => pure ()
+  let compile := fun (g : List UInt8) => match table.find? (fun e => e.1 == g) with
+    | some (_, c) => c
+    | none => none
+  let hist ← IO.FS.lines (dir ++ "/histories.txt")
+  let mut fs : Build.FS := { grammar := none, dest := none, pfx := [] }
+  let mut id := ""
+  let mut kk := 0
+  for l in hist do
+    match l.splitOn " " with
+    | ["H", i, _] => id := i; kk := 0; fs := { grammar := none, dest := none, pfx := [] }
+    | ["G", hx] =>
+      let t := if hx == "NONE" then none else (if hx == "-" then some [] else unhex hx.toList)
+      fs := (Build.step k compile fs (.editGrammar t)).1
+    | ["P", hx] => fs := (Build.step k compile fs (.setPrefix ((if hx == "-" then some [] else unhex hx.toList).getD []))).1
+    | ["D"] => fs := (Build.step k compile fs .deleteDest).1
+    | ["R"] =>
+      let (fs', out) := Build.step k compile fs .run
+      fs := fs'
+      let res := match out with | .ok _ => "OK" | .err => "ERR" | .none => "?"
+      let w := match out with | .ok true => "1" | _ => "0"
+      let d := match fs.dest with | some b => hex16 (fnv64 b) | none => "NONE"
+      let fresh := match fs.grammar with
+        | some g => (match compile g with
+          | some code => hex16 (fnv64 (Build.output k g fs.pfx code))
+          | none => "UNCOMPILABLE")
+        | none => "UNREADABLE"
+      IO.println s!"{id} {kk} {res} {d} {w} {fresh}"
+      kk := kk + 1
+    | _ => pure ()
+
 def main (args : List String) : IO UInt32 := do
   match args with
   | ["run", file] =>
@@ -104,6 +203,14 @@ def main (args : List String) : IO UInt32 := do
     let out ← IO.getStdout
     runLoop (IO.FS.Stream.ofHandle h) out none 0
     return 0
+  | ["unit", file] =>
+    let h ← IO.FS.Handle.mk file .read
+    let out ← IO.getStdout
+    unitLoop (IO.FS.Stream.ofHandle h) out
+    return 0
+  | ["fs", dir] =>
+    fsMain dir
+    return 0
   | _ =>
-    IO.eprintln "usage: pegverif run <file>"
+    IO.eprintln "usage: pegverif run <file> | unit <file> | fs <dir>"
     return 2
